@@ -665,6 +665,9 @@ class Sym:
         if isinstance(c.func, ast.Name) and c.func.id in env and env[c.func.id][0] not in ("param", "name", "unbound"):
             # call of a callable held in a local:  cls = registry[key]; cls(a, b)
             return ("callv", env[c.func.id], args, kws)
+        if isinstance(c.func, (ast.Subscript, ast.Call, ast.IfExp)):
+            # call of a computed callable:  table[key](x)
+            return ("callv", self.expr(c.func, env, depth), args, kws)
         return ("call", self._ext_name(cn) if cn else unparse(c.func), args, kws)
 
     def _ext_name(self, d):
